@@ -3,6 +3,7 @@ package vuego
 import (
 	"io"
 	"io/fs"
+	"strconv"
 	"sync"
 	"time"
 
@@ -100,6 +101,9 @@ func (v *Vue) renderNodesWithContext(ctx VueContext, w io.Writer, nodes []*html.
 		nodeCopy = append(nodeCopy, helpers.DeepCloneNode(nodes[i]))
 	}
 
+	// Identify the v-once elements of this template (on the private copy).
+	assignOnceIDs(ctx.FromFilename, nodeCopy)
+
 	if err := v.preProcessNodes(ctx, nodeCopy); err != nil {
 		return err
 	}
@@ -166,11 +170,6 @@ func (v *Vue) Render(w io.Writer, filename string, data any) error {
 		Processors: v.nodeProcessors,
 	})
 
-	// Assign unique IDs to all v-once elements for tracking across deep clones
-	for _, node := range dom {
-		assignSeenAttrs(&vueCtx, node)
-	}
-
 	// Use renderNodesWithContext with pre-configured context
 	return v.renderNodesWithContext(vueCtx, w, dom)
 }
@@ -233,16 +232,27 @@ func (v *Vue) evictTemplate(filename string) {
 	v.templateMu.Unlock()
 }
 
-// assignSeenAttrs recursively assigns unique IDs to all v-once elements in the tree
-func assignSeenAttrs(ctx *VueContext, node *html.Node) {
-	if node.Type == html.ElementNode {
-		if helpers.HasAttr(node, "v-once") {
-			id := ctx.nextSeenID()
-			helpers.SetAttr(node, "v-once-id", id)
+// assignOnceIDs stamps every v-once element below nodes that has no id yet with an id that
+// identifies (template, position): every instantiation of that element - loop iterations,
+// repeated includes of its component - carries the same id, while distinct v-once elements
+// get distinct ids, whichever file they are in. It is only applied to DOM copies that are
+// private to the running render, never to the shared template cache.
+func assignOnceIDs(templateName string, nodes []*html.Node) {
+	n := 0
+	var walk func(node *html.Node)
+	walk = func(node *html.Node) {
+		if node.Type == html.ElementNode && helpers.HasAttr(node, "v-once") {
+			if !helpers.HasAttr(node, "v-once-id") {
+				helpers.SetAttr(node, "v-once-id", templateName+"#"+strconv.Itoa(n))
+			}
+			n++
+		}
+		for c := node.FirstChild; c != nil; c = c.NextSibling {
+			walk(c)
 		}
 	}
-	for c := node.FirstChild; c != nil; c = c.NextSibling {
-		assignSeenAttrs(ctx, c)
+	for _, node := range nodes {
+		walk(node)
 	}
 }
 
@@ -269,11 +279,6 @@ func (v *Vue) RenderFragment(w io.Writer, filename string, data any) error {
 		Stack:      NewStackWithData(dataMap, data),
 		Processors: v.nodeProcessors,
 	})
-
-	// Assign unique IDs to all v-once elements for tracking across deep clones
-	for _, node := range dom {
-		assignSeenAttrs(&vueCtx, node)
-	}
 
 	// Use RenderNodes with pre-configured context
 	return v.renderNodesWithContext(vueCtx, w, dom)
